@@ -271,60 +271,70 @@ impl TerminalRenderer {
         // First pass
         //
         // - Replace glyphs with images in the front buffer
+        // - Resolve overlaps: cells covered by a wide character or by an image
+        //   are not visible, they are marked as ignored and replaced with an empty
+        //   (zero width) cell, a cell that needs already covered cells is not shown.
+        //   Hence the content produced for a surface does not depend on the previous
+        //   frame, and comparison with it finds everything that has to be repainted.
         // - Erase changed images
         // - Record images that we need to render
+        let pixels_per_cell = self.size.pixels_per_cell();
         for ((pos, old), new) in self.back.iter().with_position().zip(self.front.iter_mut()) {
-            // replace glyphs with images
-            if let CellKind::Glyph(glyph) = &new.kind {
-                let image = match self.glyph_cache.get(new) {
-                    Some(image) => image.clone(),
-                    None => {
-                        let image = glyph.rasterize(new.face, self.size);
-                        self.glyph_cache.insert(new.clone(), image.clone());
-                        image
-                    }
+            let mark = self.marks.get(pos).copied().unwrap_or_default();
+            if mark == CellMark::Ignored {
+                // covered by previously resolved cell
+                *new = Cell::new_char(Face::default(), '\0');
+            } else {
+                // replace glyphs with images
+                if let CellKind::Glyph(glyph) = &new.kind {
+                    let image = match self.glyph_cache.get(new) {
+                        Some(image) => image.clone(),
+                        None => {
+                            let image = glyph.rasterize(new.face, self.size);
+                            self.glyph_cache.insert(new.clone(), image.clone());
+                            image
+                        }
+                    };
+                    new.kind = CellKind::Image(image);
+                }
+
+                // mark cells covered by the current cell as ignored
+                let size = match &new.kind {
+                    CellKind::Image(image) => image.size_cells(pixels_per_cell),
+                    CellKind::Char(character) => Size::new(1, character.width().unwrap_or(0)),
+                    CellKind::Glyph(_) => Size::new(1, 1),
                 };
-                new.kind = CellKind::Image(image);
+                if size.height > 1 || size.width > 1 {
+                    let mut covered = self.marks.view_mut(
+                        pos.row..pos.row + size.height,
+                        pos.col..pos.col + size.width,
+                    );
+                    if covered.iter().any(|mark| mark == &CellMark::Ignored) {
+                        // overlaps with something that is already visible
+                        *new = match &new.kind {
+                            CellKind::Char(_) => Cell::new_char(new.face, ' '),
+                            _ => Cell::new_char(Face::default(), '\0'),
+                        };
+                    } else {
+                        covered.fill(CellMark::Ignored);
+                        covered.set(Position::origin(), mark);
+                    }
+                }
             }
 
-            // skip cells that have not changed, go over ignored items too as they
-            // might remove old images.
-            if old == new && self.marks.get(pos) != Some(&CellMark::Damaged) {
-                // cell under the image needs to be marked as ignored
-                if let CellKind::Image(image) = &new.kind {
-                    let size = image.size_cells(self.size.pixels_per_cell());
-                    self.marks
-                        .view_mut(
-                            pos.row..pos.row + size.height,
-                            pos.col..pos.col + size.width,
-                        )
-                        .fill(CellMark::Ignored);
-                }
+            // skip cells that have not changed
+            if old == new && mark != CellMark::Damaged {
                 continue;
             }
 
-            // erase and damage area under old image
+            // erase old image
             if let CellKind::Image(image) = &old.kind {
                 term.execute(TerminalCommand::ImageErase(image.clone(), Some(pos)))?;
-                let size = image.size_cells(self.size.pixels_per_cell());
-                self.marks
-                    .view_mut(
-                        pos.row..pos.row + size.height,
-                        pos.col..pos.col + size.width,
-                    )
-                    .fill(CellMark::Damaged);
             }
 
-            // record image to be rendered, and mark area under the image to be ignored
+            // record image to be rendered
             if let CellKind::Image(image) = &new.kind {
                 self.images.push((pos, new.face, image.clone()));
-                let size = image.size_cells(self.size.pixels_per_cell());
-                self.marks
-                    .view_mut(
-                        pos.row..pos.row + size.height,
-                        pos.col..pos.col + size.width,
-                    )
-                    .fill(CellMark::Ignored);
             }
         }
 
